@@ -147,6 +147,7 @@ func (l *Loader) resolveIncludes(path string, journal *ast.Journal, visited map[
 	var errors []LoadError
 
 	result := NewResolvedJournal(journal)
+	result.PrimaryPath = path
 	visited[path] = true
 
 	for _, inc := range journal.Includes {
